@@ -214,3 +214,86 @@ class EmbeddedLinearized(_Base):
 
 
 CONTRACTS = [StoreUOldPost, EmbeddedSerial, EmbeddedPost, EmbeddedLinearized]
+
+
+# ------------------------------------------------------------------------------------------ bounded: interpolation between restarts (numpy code)
+def bounded_interpolate_between_restarts(tier, seed):
+    """real controller, real data: after a restart request with a new step size the node values handed to the restarted step are the values of the
+    Lagrange interpolant through (step start, old nodes) at the new node times -- exact for polynomial node data of degree <= M --, the step's start
+    value u[0] stays BIT-identical (the restarted step must start from the same value), and the bookkeeping flags are consumed"""
+    from pySDC.implementations.controller_classes.controller_nonMPI import controller_nonMPI
+    from pySDC.implementations.problem_classes.TestEquation_0D import testequation0d
+    from pySDC.implementations.sweeper_classes.generic_implicit import generic_implicit
+    from pySDC.implementations.convergence_controller_classes.interpolate_between_restarts import InterpolateBetweenRestarts
+
+    rng = np.random.RandomState(seed + 77)
+    obs, cases = [], 0
+    fails = {k: [] for k in ('interpolant_at_new_node_times', 'start_value_bit_identical', 'flags_consumed', 'no_interpolation_without_restart_or_when_skipped')}
+    for M in (2, 3, 4) if tier == 'quick' else (2, 3, 4, 5):
+        for quad in ('RADAU-RIGHT', 'LOBATTO', 'GAUSS'):
+            for ratio in (0.5, 0.37, 0.9) if tier == 'quick' else (0.5, 0.37, 0.9, 0.1, 1.0):
+                d = dict(problem_class=testequation0d, problem_params=dict(lambdas=np.array([-1.0, -2.0 + 1j, 0.5j]), u0=1.0), sweeper_class=generic_implicit,
+                         sweeper_params=dict(num_nodes=M, quad_type=quad, QI='IE'), level_params=dict(dt=0.25, restol=-1), step_params=dict(maxiter=3),
+                         convergence_controllers={InterpolateBetweenRestarts: {}})
+                c = controller_nonMPI(num_procs=1, controller_params=dict(logger_level=40, dump_setup=False), description=d)
+                ibr = [x for x in c.convergence_controllers if type(x).__name__ == 'InterpolateBetweenRestarts'][0]
+                ibr.setup_status_variables(c)
+                S = c.MS[0]
+                L = S.levels[0]
+                P = L.prob
+                L.status.time = 0.3
+                S.status.slot, S.status.time_size = 0, 1
+                nodes = np.append(0, L.sweep.coll.nodes)
+                coef = rng.randn(M + 1, 3) + 1j * rng.randn(M + 1, 3)
+                if L.sweep.coll.left_is_node:
+                    coef[M] = 0  # the step start is a node: M distinct points carry polynomials of degree M-1
+                poly = lambda t: sum(coef[q] * t**q for q in range(M + 1))
+                dpoly = lambda t: sum(coef[q] * (t**q) * (q + 1.5) for q in range(M + 1))
+                for m in range(M + 1):
+                    L.u[m] = P.dtype_u(P.init)
+                    L.u[m][:] = poly(nodes[m])
+                    L.f[m] = P.dtype_f(P.init)
+                    L.f[m][:] = dpoly(nodes[m])
+                u0_bytes = np.asarray(L.u[0]).tobytes()
+                L.status.dt_new = ratio * L.params.dt
+                S.status.restart = True
+                cfg = f'M={M},{quad},dt_new/dt={ratio}'
+                cases += 1
+                ibr.post_iteration_processing(c, S)
+                # what restart_block does before the spread: fresh level data with the start value
+                keep = P.dtype_u(L.u[0])
+                for m in range(1, M + 1):
+                    L.u[m] = P.dtype_u(P.init, val=0.0)
+                    L.f[m] = P.dtype_f(P.init, val=0.0)
+                L.u[0] = keep
+                ibr.post_spread_processing(c, S)
+                new_nodes = nodes * ratio
+                err = max(float(np.max(np.abs(np.asarray(L.u[m]) - poly(new_nodes[m])))) for m in range(M + 1))
+                errf = max(float(np.max(np.abs(np.asarray(L.f[m]) - dpoly(new_nodes[m])))) for m in range(M + 1))
+                scale = float(np.max(np.abs(coef))) * (M + 1)
+                if not (err <= 1e-10 * scale and errf <= 1e-10 * scale * (M + 2)):
+                    fails['interpolant_at_new_node_times'].append(dict(config=cfg, err_u=err, err_f=errf))
+                if np.asarray(L.u[0]).tobytes() != u0_bytes:
+                    fails['start_value_bit_identical'].append(dict(config=cfg))
+                if ibr.status.perform_interpolation or ibr.status.skip_interpolation or ibr.status.u_inter or ibr.status.f_inter:
+                    fails['flags_consumed'].append(dict(config=cfg))
+                # no restart / skip requested: node data is left to the sweeper's predictor
+                for mode in ('no_restart', 'skip'):
+                    for m in range(M + 1):
+                        L.u[m][:] = poly(nodes[m])
+                        L.f[m][:] = dpoly(nodes[m])
+                    S.status.restart = mode == 'skip'
+                    ibr.status.skip_interpolation = mode == 'skip'
+                    ibr.post_iteration_processing(c, S)
+                    before = [np.asarray(u).copy() for u in L.u]
+                    ibr.post_spread_processing(c, S)
+                    if any(not np.array_equal(a, np.asarray(b)) for a, b in zip(before, L.u)) or ibr.status.perform_interpolation or ibr.status.skip_interpolation:
+                        fails['no_interpolation_without_restart_or_when_skipped'].append(dict(config=cfg, mode=mode))
+    for k, bad in fails.items():
+        obs.append(dict(name=f'bounded:{k}', status='proved' if not bad else 'refuted', backend='native-run', seconds=0.0, kind='bounded', size=0, model=dict(first=bad[:6]) if bad else None, reason='', path=0, counted=False))
+    return dict(contract='bounded:InterpolateBetweenRestarts', prop='C09', inst={}, label='bounded', kind='bounded', obligations=obs, canaries=[], paths=1, status='ok',
+                bounded=dict(what='interpolation of node data to the node times of the restarted (shorter) step on real levels and mesh data', bound='M=2..5, three quadrature types, step-size ratios 0.1..1, random complex polynomial node data', cases=cases,
+                             failures=sum(1 for o in obs if o['status'] != 'proved')))
+
+
+EXTRAS = [bounded_interpolate_between_restarts]
